@@ -489,6 +489,9 @@ theorem parseFv_ffs_eq {h : Hooks} {fuel0 : Nat} {data : Bytes} {off : Nat} {rs 
     have el : (fvInfoOf data blocks off rs).length = rd data 32 8 := rfl
     have eg : (fvInfoOf data blocks off rs).fsGuid = slice data 16 16 := rfl
     rw [ea, el, eg, fvInfoOf_dataOffset] at hp
+    by_cases hbm : 56 + 8 * (blocks.length + 1) > rd data 32 8
+    · rw [if_pos hbm] at hp; simp at hp
+    rw [if_neg hbm] at hp
     cases hsp : setPolarity (polOfAttrs (rd data 44 4)) st with
     | error e => rw [hsp] at hp; simp at hp
     | ok stp =>
